@@ -972,7 +972,7 @@ def _c_outcome_list(out, conv):
 
 
 FN = {'lag': 'FLag', 'lead': 'FLead', 'diff': 'FDiff', 'dlog': 'FDlog'}
-PRE_H = '''From Coq Require Import PrimFloat ZArith List Bool String.
+PRE_H = '''From Coq Require Import PrimFloat ZArith List Bool String Ascii.
 Import ListNotations.
 Require Import Fsic.Base.PyBase Fsic.Funcs.Funcs Fsic.Funcs.EvalIdx Fsic.Funcs.FuncsF.
 Open Scope float_scope. Open Scope Z_scope.
